@@ -1,7 +1,7 @@
 PROPERTY = "C04"
 ENTRY = {
         "text": "Clients.tla/ClientsCore.tla (abstract registry written from the statement: ownership, clash rejection, precedence "
-                "ClientID > exact IP > longest prefix > DHCP-lease MAC, own-vs-global settings) is explored by TLC over all histories of four "
+                "ClientID > exact IP > longest prefix > DHCP-lease MAC, own-vs-global settings) is explored by TLC over all histories of five "
                 "finite universes (incl. IPv6-zoned addresses; Add/Update/Remove/LeaseChange and LoadConfig = start-up from a configuration file) with 5 invariants and 1 action property; every labelled edge TLC prints is walked through a real client.Storage "
                 "behind a real filtering.DNSFilter (edge-covering tours), comparing Find for every identifier/address, FindByName, RangeByName and the "
                 "effective filtering settings of every (ClientID, address) pair after every step; ClientSettings.tla enumerates every "
@@ -10,7 +10,7 @@ ENTRY = {
                 "recorded and validated by TraceClients.tla.",
         "design_ref": "DESIGN.md section 4 C04",
         "note": "Trusted: TLC, conc()/abs() of zz_verif_c04_test.go. Exported API only (Storage.Add/Update/RemoveByName/Find/FindByName/RangeByName, "
-                "DNSFilter.Settings+ApplyAdditionalFiltering with Storage.ApplyClientFiltering as the hook). Identifiers are registered under seeded legal spellings (letter case, host bits of prefixes, the same identifier twice in one list). Lookup by the text of a prefix may find "
-                "its owner or nothing (statement silent). Single goroutine per Storage. quick replays the edges of a seeded fifth of the states.",
+                "DNSFilter.Settings+ApplyAdditionalFiltering with Storage.ApplyClientFiltering as the hook). Identifiers are registered under seeded legal spellings (letter case, host bits of prefixes, the same identifier twice in one list). Lookups are repeated under other legal spellings (prefix text, upper-case ClientID, IPv4-mapped address, EUI-64 with colons). "
+                " Single goroutine per Storage. quick replays the edges of a seeded fifth of the states.",
         "technique": "TLA+ state machine explored by TLC; edge-covering tour replay into real code + TLC trace validation",
     }
